@@ -318,10 +318,13 @@ public final class Driver {
     }
 
     static Method publicMethod(Class<?> c, String name, int nparams) {
+        // javac emits bridge methods for public methods inherited from non public classes
+        // (e.g. P.UnconstrainedBuilder.setA seen through UnknownP.Builder): accept them, but
+        // prefer the real method when both exist.
         Method found = null;
         for (Method m : c.getMethods()) {
-            if (m.getName().equals(name) && m.getParameterCount() == nparams && !m.isBridge()) {
-                found = m;
+            if (m.getName().equals(name) && m.getParameterCount() == nparams) {
+                if (found == null || (found.isBridge() && !m.isBridge())) found = m;
             }
         }
         return found;
